@@ -9,8 +9,8 @@ git diff --stat -- include src | tail -3
 cmake -S "$W" -B "$W/_b" -G Ninja -DCMAKE_BUILD_TYPE=RelWithDebInfo -DCMAKE_CXX_FLAGS=-Wno-error >/dev/null 2>&1
 cmake --build "$W/_b" -- -k 0 >/dev/null 2>&1
 echo "tests with change: $(ctest --test-dir "$W/_b" -j8 2>/dev/null | grep -c '   Passed ') passed; failed: $(ctest --test-dir "$W/_b" -j8 2>/dev/null | grep -E '^\s+[0-9]+ - ' | grep -v 'Not Run' | wc -l)"
-g++ "${FLAGS[@]}" -I"$W/include" "$W/_mutant/demo.cpp" "$W"/src/*.cpp -licuuc -licudata -o /tmp/demo_with 2>/dev/null && { /tmp/demo_with >/dev/null 2>&1; echo "demo with change: exit $?"; }
-git diff -- include src tools CMakeLists.txt > /tmp/_confirm_patch.diff; git apply -R /tmp/_confirm_patch.diff
-g++ "${FLAGS[@]}" -I"$W/include" "$W/_mutant/demo.cpp" "$W"/src/*.cpp -licuuc -licudata -o /tmp/demo_without 2>/dev/null && { /tmp/demo_without >/dev/null 2>&1; echo "demo without change: exit $?"; }
-git apply /tmp/_confirm_patch.diff
+g++ "${FLAGS[@]}" -I"$W/include" "$W/_mutant/demo.cpp" "$W"/src/*.cpp -licuuc -licudata -o "$W/_demo_with" 2>/dev/null && { "$W/_demo_with" >/dev/null 2>&1; echo "demo with change: exit $?"; }
+git diff -- include src tools CMakeLists.txt > "$W/_confirm_patch.diff"; git apply -R "$W/_confirm_patch.diff"
+g++ "${FLAGS[@]}" -I"$W/include" "$W/_mutant/demo.cpp" "$W"/src/*.cpp -licuuc -licudata -o "$W/_demo_without" 2>/dev/null && { "$W/_demo_without" >/dev/null 2>&1; echo "demo without change: exit $?"; }
+git apply "$W/_confirm_patch.diff"
 git diff -- include src tools CMakeLists.txt > "$W/_mutant/patch.confirmed.diff"
